@@ -7,6 +7,7 @@
   in one or two faces), of any size, padding layout and numbering.
 -/
 import UxVerif.Lemmas.Keyed
+import UxVerif.Lemmas.Pipeline
 
 namespace UxVerif.C03
 open UxVerif UxVerif.Incidence
@@ -518,6 +519,42 @@ theorem build_meets_spec {n w : Nat} {t FE : Table} {N : List Nat} {nEdge : Nat}
     simpa [build, h.1] using this
   · have := faceFace_count_ok w hef
     simpa [build, h.1] using this
+
+/-! ### C02 → C03: the precondition is met by the edge tables C02's model derives -/
+
+/-- **pipeline precondition**: for EVERY standard-form face table the face-edge table, corner
+    counts and edge count derived by the C02 model meet `Pre`, provided the mesh is manifold
+    (no edge bounds more than two face slots) — the only clause that is about the mesh and not
+    about the code. -/
+theorem pre_of_edges_build {n w : Nat} {t : Table} (h : Edges.StdForm n w t)
+    (hman : ∀ e, e < (Edges.edges t).length →
+      incidence (Edges.faceEdges t) (Edges.nNodesPerFace t) e ≤ 2) :
+    Pre n t (Edges.faceEdges t) (Edges.nNodesPerFace t) (Edges.edges t).length := by
+  have hlen : (Edges.faceEdges t).length = t.length := by simp [Edges.faceEdges]
+  refine ⟨hlen, ?_, ?_, ?_⟩
+  · intro f hf e he
+    have := Pipeline.faceEdges_valid h f (by omega) e he
+    exact ⟨this.1, by exact_mod_cast this.2⟩
+  · intro e he
+    exact ⟨Pipeline.incidence_pos h e he, hman e he⟩
+  · intro f hf v hv
+    have hstd := h _ (List.getElem_mem hf)
+    rw [Pipeline.rowAt_eq_getElem t f hf, Pipeline.real_of_std hstd] at hv
+    exact hstd.2.2.1 v hv
+
+/-- **C02 ∘ C03 end to end**: on every manifold standard-form face table, the incidence tables
+    built from the edge tables that the C02 model derives satisfy the C03 specification. -/
+theorem pipeline_meets_spec {n w : Nat} {t : Table} (h : Edges.StdForm n w t)
+    (hman : ∀ e, e < (Edges.edges t).length →
+      incidence (Edges.faceEdges t) (Edges.nNodesPerFace t) e ≤ 2) :
+    Spec n t (Edges.faceEdges t) (Edges.nNodesPerFace t) (Edges.edges t).length
+      (build n w t (Edges.faceEdges t) (Edges.nNodesPerFace t) (Edges.edges t).length) :=
+  build_meets_spec (pre_of_edges_build h hman)
+
+/-- non-vacuity: two triangles sharing an edge and an isolated triangle are manifold -/
+example : ∀ e, e < (Edges.edges [[0, 1, 2], [2, 1, 3], [4, 5, 6]]).length →
+    incidence (Edges.faceEdges [[0, 1, 2], [2, 1, 3], [4, 5, 6]])
+      (Edges.nNodesPerFace [[0, 1, 2], [2, 1, 3], [4, 5, 6]]) e ≤ 2 := by decide
 
 /-- the specification is not trivially true: a face-face row listing a non-neighbour fails -/
 example : ¬ FaceFaceMemOK [[0, 1, 2], [1, 3, 4], [5, 6, 7]] [3, 3, 3] 8
